@@ -3,6 +3,21 @@
 from .sym import nosite, core
 
 
+def anon(t):
+    """drop debug names (of parameters, captured variables, locals) so that atoms do not depend on identifiers"""
+    if not isinstance(t, tuple):
+        return t
+    if t and t[0] in ('arg', 'upvar') and len(t) >= 3:
+        return (t[0], t[1])
+    if t and t[0] == 'var' and len(t) >= 3:
+        return ('var', t[2])
+    return tuple(anon(x) if isinstance(x, tuple) else x for x in t)
+
+
+def atom_key(t):
+    return repr(anon(nosite(t)))
+
+
 def _atom(t):
     return (nosite(t),)
 
@@ -27,7 +42,7 @@ def poly(t, subst=None):
         return _mul(a, b)
     if t[0] == 'cast':
         return poly(t[1], subst)
-    return {(repr(nosite(t)),): 1}
+    return {(atom_key(t),): 1}
 
 
 def _add(a, b, sign):
